@@ -373,9 +373,10 @@ impl<'a> P<'a> {
                     None => return Err(Stop::Reject("unterminated expression", st)),
                     Some(b')') => break,
                     Some(c) if c >= 0x80 => return Err(Stop::Reject("non-ASCII byte outside block data", self.i)),
-                    Some(b'"') | Some(b'\'') | Some(b'(') | Some(b'#') | Some(b';') => {
-                        return Err(Stop::Unspec("quote, nested parenthesis, # or ; inside an expression"))
-                    }
+                    // 488.2 7.7.7.2: an expression holds no quote, parenthesis or `;` (the library agrees); `#` is
+                    // excluded by 488.2 as well but the library lets it through: left unjudged
+                    Some(b'"') | Some(b'\'') | Some(b'(') | Some(b';') => return Err(Stop::Reject("quote, parenthesis or ; inside an expression", self.i)),
+                    Some(b'#') => return Err(Stop::Unspec("# inside an expression")),
                     Some(b'\n') => return Err(Stop::Unspec("NL inside an expression")),
                     Some(_) => self.i += 1,
                 }
@@ -606,13 +607,13 @@ mod tests {
     }
     #[test]
     fn rejects() {
-        for s in [&b"A 1 2"[..], b"A 'x", b"A #15ab", b"ABCDEFGHIJKLM", b"A ABCDEFGHIJKLM", b"A::B", b"*A:B", b"A ,1", b"A 1,,2", b"A 1,", b"A \xff", b"A?1", b"A #H", b"A #2x1a"] {
+        for s in [&b"A 1 2"[..], b"A 'x", b"A #15ab", b"ABCDEFGHIJKLM", b"A ABCDEFGHIJKLM", b"A::B", b"*A:B", b"A ,1", b"A 1,,2", b"A 1,", b"A \xff", b"A?1", b"A #H", b"A #2x1a", b"A ((1))", b"A (1;2)", b"A ('x')"] {
             assert!(matches!(lex_message(s), Lex::Reject(..)), "{:?} -> {:?}", String::from_utf8_lossy(s), lex_message(s));
         }
     }
     #[test]
     fn unspecified() {
-        for s in [&b";A"[..], b"A;;B", b"  ", b"A 1 E5", b"A\nB", b"A ()", b"A ((1))"] {
+        for s in [&b";A"[..], b"A;;B", b"  ", b"A 1 E5", b"A\nB", b"A ()", b"A (#1)"] {
             assert!(matches!(lex_message(s), Lex::Unspecified(..)), "{:?} -> {:?}", String::from_utf8_lossy(s), lex_message(s));
         }
     }
